@@ -635,3 +635,5 @@ def run(prog: Program, chk: Check) -> None:
     chk.call(v8, prog, chk)
     chk.call(v9, prog, chk)
     chk.call(v10, prog, chk)
+    from rules.c05 import stored_coupling_reads
+    chk.call(stored_coupling_reads, prog, chk, "V11")
